@@ -26,7 +26,7 @@ def probe_case(rng):
     v = lambda: ('num', rng.randint(0, 250))  # noqa
     kind = rng.choice(['file-label-leak-down', 'file-label-leak-up', 'file-const-leak-down', 'local-across-region',
                        'local-after-org', 'local-same-name-two-regions', 'file-same-name-two-files', 'local-before-any-label',
-                       'const-does-not-open-region', 'nested-leak', 'local-on-directive-line', 'local-on-directive-line',
+                       'const-does-not-open-region', 'const-does-not-open-region', 'nested-leak', 'local-on-directive-line', 'local-on-directive-line',
                        'region-opened-on-directive-line', 'duplicate-on-one-line', 'duplicate-on-one-line',
                        'many-labels-in-included-file'])
     ref = lambda n: {'k': 'data', 'w': 2, 'vals': [('label', n)]}  # noqa
@@ -92,11 +92,13 @@ def probe_case(rng):
         A = [{'k': 'label', 'name': '_x'}, ref('_x'), {'k': 'include', 'f': 1, 'name': 'inc1.asm'}, ref('_x')]
         B = [{'k': 'data', 'w': 1, 'vals': [v()]}, {'k': 'label', 'name': '_x'}, ref('_x')]
     elif kind == 'local-before-any-label':
-        A = [{'k': 'const', 'name': 'kk', 'e': v()}, {'k': 'label', 'name': '.l'}, {'k': 'data', 'w': 1, 'vals': [v()]}]
+        A = [{'k': 'const', 'name': 'kk', 'e': rng.choice([v(), ('num', 0)])}, {'k': 'label', 'name': '.l'},
+             {'k': 'data', 'w': 1, 'vals': [v()]}]
     else:  # const-does-not-open-region: local defined, constant in between, local used -> fine; duplicate local -> rejected
         dup = rng.random() < 0.5
         A = [{'k': 'label', 'name': 'g1'}, {'k': 'label', 'name': '.l'}, {'k': 'data', 'w': 1, 'vals': [v()]},
-             {'k': 'const', 'name': 'kk', 'e': v()}] + ([{'k': 'label', 'name': '.l'}] if dup else []) + [ref('.l')]
+             {'k': 'const', 'name': 'kk', 'e': rng.choice([v(), ('num', 0), ('num', 0), ('bin', '-', ('num', 5), ('num', 5))])}] + \
+            ([{'k': 'label', 'name': '.l'}] if dup else []) + [ref('.l')]
     files = [f for f in (A, B, C) if f]
     if rng.random() < 0.3:
         # the reference inside a muted region: a muted statement emits nothing, its names are looked up all the same
